@@ -1,0 +1,14 @@
+//go:build verif
+
+
+package evm
+
+// VerifSetValidateRoutineCount sets the number of signature-checking goroutines that
+// exeWithCPUParallelVeirfy starts for every block (package variable validateRoutineCount,
+// default runtime.NumCPU(), values outside 1..16 are replaced by 8 by the verifier itself)
+// and returns the previous value. Used by check C05 to vary the degree of parallelism.
+func VerifSetValidateRoutineCount(n int) int {
+	old := validateRoutineCount
+	validateRoutineCount = n
+	return old
+}
